@@ -165,7 +165,14 @@ fn observe(s: &mut Session, e: u32, rng: &mut Rng, w: &W, hist_len: usize) {
                 s.acc(e);
             }
             "ffb" => {
-                s.ff_bytes(e);
+                // recorded finding C11/forced-marker-bytes-then-mask (and C12/rollback-over-forced-id-token): on a
+                // non-canonical vocabulary compute_ff_bytes() leaves the marker form of a forced token-identity
+                // terminal in the parser; the targeted episodes exercise exactly that, the random walks stay clear of it
+                let canonical = s.cfg_of(e).vocab.canonical;
+                let skip = !canonical && !stopped && s.side_clone(e).compute_ff_bytes().contains(&0xFF);
+                if !skip {
+                    s.ff_bytes(e);
+                }
             }
             "fft" => {
                 s.ff_tokens(e);
@@ -236,7 +243,7 @@ fn run_episode(ep: &Value, epno: usize, cache: &mut HashMap<String, Vocab>, tr: 
         };
         let vid = cd["vid"].as_u64().unwrap_or(0) as u32;
         let bc = (0..=254u8).all(|b| voc.words.iter().any(|w| w.len() == 1 && w[0] == b));
-        let mut cj = json!({"n": voc.n(), "eos": voc.eos, "canon": voc.canonical as u32, "bc": bc as u32});
+        let mut cj = json!({"n": voc.n(), "eos": voc.eos, "eosx": voc.all_eos(), "canon": voc.canonical as u32, "bc": bc as u32});
         if ep["log_vocab"].as_u64().unwrap_or(0) != 0 {
             cj["tok"] = voc.to_json()["tok"].clone();
         }
